@@ -7,7 +7,7 @@ import (
 
 func init() {
 	Register(&Scenario{Prop: "C02", Name: "converge-after-heal", Run: scenC02, SoftParks: true, Weight: 1,
-		Rule: "2-4 writer replicas of one database (type drawn per run); 3-12 (thorough 3-36) writes interleaved with kernel steps under drop/dup/reorder of announcements and direct-channel payloads, link cuts/heals, block fetches that end with an error (1 run in 3: pending fetches failed by the kernel; 1 in 3: the first 1-3, 1-8 or 1-20 fetches, counted over all replicas, of about half the entries), crash or clean stop + restart (open + Load(-1)); final phase: writes stop, crashed peers restart, every link is cut until both sides observed it, then all links heal and no further fault occurs; oracle: within 180 virtual seconds and 6000 kernel steps the world is at rest and every replica holds every acknowledged write and all replicas show equal state; non-trivial = at least one fault fired and at least one entry reached some replica only after the final heal; writes include bursts of 2-3 concurrent writers on one replica (stepped through the write path, or free-running under seeded yields)"})
+		Rule: "2-4 writer replicas of one database (type drawn per run); 3-12 (thorough 3-36) writes interleaved with kernel steps under drop/dup/reorder of announcements and direct-channel payloads, link cuts/heals, block fetches that end with an error (1 run in 3: pending fetches failed by the kernel; 1 in 3: the first 1-3, 1-8 or 1-20 fetches, counted over all replicas, of about half the entries), crash or clean stop + restart (open + Load(-1); 1 restart in 4 goes on without Load: the store merges and writes on a fresh log, after which only 'every replica holds every write' is judged, and the unloaded store is not owed what it had held before, which a Load would show); final phase: writes stop, crashed peers restart, every link is cut until both sides observed it, then all links heal and no further fault occurs; oracle: within 180 virtual seconds and 6000 kernel steps the world is at rest and every replica holds every acknowledged write and all replicas show equal state; non-trivial = at least one fault fired and at least one entry reached some replica only after the final heal; writes include bursts of 2-3 concurrent writers on one replica (stepped through the write path, or free-running under seeded yields)"})
 }
 
 func scenC02(k *K) {
@@ -36,6 +36,8 @@ func scenC02(k *K) {
 		s := k.W.Stats
 		return s["drop"] + s["dup"] + s["reorder"] + s["cut"] + s["crash"] + s["clean-stop"] + s["crash@effect"]
 	}
+	unloaded := false
+	onDisk := map[int]map[string]bool{}
 	for i := 0; i < nops; i++ {
 		switch k.C.Weighted([]int{8, 1, 2, 2}) {
 		case 3:
@@ -53,10 +55,26 @@ func scenC02(k *K) {
 		case 1:
 			node := k.C.Intn(n)
 			if c.Stores[node] != nil && k.opsInFlightOn(node) == 0 {
+				pre := LogHashSet(c.Stores[node])
 				c.Down(node, k.C.Chance(2, 3))
 				k.Steps(k.C.Intn(8))
 				if k.C.Chance(2, 3) {
-					if err := c.Up(node); err != nil {
+					if k.C.Chance(1, 4) {
+						// restarted and used without being loaded: it merges and writes on
+						// top of a fresh log, what it had persisted is still announced
+						if err := c.UpWithoutLoad(node); err != nil {
+							k.Failf("C02/restart-load-error", "restart of n%d failed: %v", node, err)
+						}
+						unloaded = true
+						// what it held is on its disk and a Load away; nobody owes it these
+						// entries again
+						if onDisk[node] == nil {
+							onDisk[node] = map[string]bool{}
+						}
+						for h := range pre {
+							onDisk[node][h] = true
+						}
+					} else if err := c.Up(node); err != nil {
 						k.Failf("C02/restart-load-error", "restart of n%d failed: %v", node, err)
 					}
 				}
@@ -115,7 +133,7 @@ func scenC02(k *K) {
 	for i, s := range c.Stores {
 		have := LogHashSet(s)
 		for _, wr := range c.Writes {
-			if !have[wr.Hash] {
+			if !have[wr.Hash] && !onDisk[i][wr.Hash] {
 				missing = append(missing, fmt.Sprintf("n%d lacks %s (written on n%d)", i, wr.Name, wr.Node))
 			}
 		}
@@ -135,6 +153,15 @@ func scenC02(k *K) {
 			st = append(st, fmt.Sprintf("n%d: repl=%+v", i, rs))
 		}
 		k.Failf("C02/no-quiescence", "all writes present but the world is not at rest 180 virtual seconds after the heal: %v pending=%v inflight=%d", st, k.PendingDesc(), k.opsInFlight())
+	}
+	if unloaded {
+		// a writer that wrote on a store it had not loaded may have used a Lamport time of its
+		// own a second time; the order of two such entries is not defined (DESIGN §8, 23), so
+		// only the first half of the property, every replica holds every write, is judged
+		k.W.Stat("state-equality-not-judged-after-unloaded-restart")
+		k.Notes["nontrivial"] = nfaults > 0
+		c.CloseAll()
+		return
 	}
 	c.PairwiseAgreement("C02")
 	first := VisibleState(c.Stores[0])
